@@ -540,6 +540,10 @@ static bool apply_filters(const char *event, struct uftrace_python_symbol *sym, 
 	if (filter_state.count_out > 0)
 		return true;
 
+	/* the entry of an opt-out function was skipped, so skip its exit as well */
+	if (filter && filter->mode == FILTER_MODE_OUT && !is_entry)
+		return true;
+
 	if (filter_state.mode == FILTER_MODE_IN) {
 		if (filter_state.count_in > 0)
 			return false;
@@ -548,10 +552,6 @@ static bool apply_filters(const char *event, struct uftrace_python_symbol *sym, 
 			return false;
 
 		return true;
-	}
-	if (filter_state.mode == FILTER_MODE_OUT) {
-		if (filter && filter->mode == FILTER_MODE_OUT && !is_entry)
-			return true;
 	}
 	return false;
 }
